@@ -144,5 +144,21 @@ std::string run(const Args& a) {
 	}
 	return "n=" + std::to_string(done) + " size=" + std::to_string(bytes.size()) + " bad=" + (bad.empty() ? "-" : bad);
 }
-Reg r1("c16.run", run);
+// c16.read <hexbytes|-> <cut> <w,w,...> : the first <cut> bytes are the stream; fields of the given widths (1,2,4,8) are read
+// one after the other through NiIStream into zero-initialised variables; answers the values and whether the stream failed
+std::string readFields(const Args& a) {
+	std::string bytes = a[1] == "-" ? "" : hexDecode(a[1]);
+	size_t cut = std::min<size_t>(std::stoul(a[2]), bytes.size());
+	std::stringstream in(bytes.substr(0, cut), std::ios::in | std::ios::binary);
+	NiHeader hdr;
+	NiIStream stream(&in, &hdr);
+	std::string out;
+	for (auto w : parseList(a[3])) {
+		uint64_t v = 0;
+		stream.read(reinterpret_cast<char*>(&v), static_cast<std::streamsize>(w));
+		out += (out.empty() ? "" : ",") + std::to_string(v);
+	}
+	return out + " " + (in.fail() ? "failed" : "good");
+}
+Reg r1("c16.run", run), r2("c16.read", readFields);
 } // namespace
